@@ -17,6 +17,18 @@ from harness import vloop
 from wpull.pipeline.pipeline import Pipeline, ItemSource, ItemTask, ItemQueue, Worker, POISON_PILL
 
 
+class FalseItem(int):
+    """A work item whose truth value is false (get_item() -> Optional[item]: only None means "nothing"); it is an int
+    in every other respect (identity of the item in the trace)."""
+    def __bool__(self):
+        return False
+
+
+def work_item(n):
+    """Item number n as the source hands it out: every other one is a false object."""
+    return FalseItem(n) if n % 2 == 1 else n
+
+
 class BoomTask(Exception):
     pass
 
@@ -116,7 +128,7 @@ class Run(object):
                 if self.n < run.K:
                     self.n += 1
                     run.log(e='src', v=self.n)
-                    return self.n
+                    return work_item(self.n)
                 run.log(e='src', v=0)
                 return None
 
